@@ -224,7 +224,10 @@ def _sweep_case(cs):
             cs.violation("update-check-stalls-command", {"kind": "stall", "behaviour": bcls.split(":")[0], "seconds": int(extra)}, ctx)
             outcome = "stall"
         elif extra > 2.5:
-            raise RuntimeError(f"timing inconclusive: extra={extra:.2f}s for {spec} / {beh} after 3 attempts")
+            # neither clearly fine nor clearly stalled after 3 attempts (loaded machine?): counted, never a verdict;
+            # finish() turns the run inconclusive when this is not rare
+            cs.count("timing_band_inconclusive")
+            outcome = "timing-band"
     cs.count("max_extra_ms_bucket:%d" % min(30, int(max(0, extra) * 2) * 500 // 500))
     cs.cls("sweep", spec, bcls.split(":")[0], outcome)
     cs.sample({"spec": spec, "tool": tool, "behaviour": beh, "exit": res.exit, "extra_s": round(extra, 2), "phase": phase})
@@ -451,3 +454,7 @@ def finish(acc):
     s = _srv.get("s")
     if s:
         s.stop()
+    band = acc["counters"].get("timing_band_inconclusive", 0)
+    runs = acc["counters"].get("sweep_runs", 0)
+    if band > max(2, 0.15 * runs):
+        acc["harness_errors"].append({"case": "timing", "trace": f"{band} of {runs} sweep runs ended in the inconclusive timing band (2.5 s < extra <= 10 s)"})
